@@ -10,6 +10,7 @@ import (
 	"strconv"
 	"strings"
 	"sync"
+	"sync/atomic"
 	"time"
 
 	"github.com/bluenviron/mediamtx/internal/conf"
@@ -321,6 +322,16 @@ func vC42SRetryDirected() []vC42SSpec {
 	}
 }
 
+// how long to wait for something a correct handler does within milliseconds; short once it failed to come a few times
+var vC42SGaveUp atomic.Int32
+
+func vC42SPatience() time.Duration {
+	if vC42SGaveUp.Load() >= 3 {
+		return 300 * time.Millisecond
+	}
+	return 10 * time.Second
+}
+
 type vC42SObs struct {
 	op   string
 	term string
@@ -466,15 +477,19 @@ func vC42SRunSpec(sp vC42SSpec) vC42SResult {
 			default:
 				reloadAt["retry-pause"] = true
 			}
+			oldMs := curMs
 			if !st.confOnly {
 				h.ReloadMatches(st.ms)
 				curMs = st.ms
 			}
 			h.ReloadConf(nc)
-			if running && alive && cur != nil && resolveSource(sp.tmpl, curMs, curQ) != cur.url {
-				rn := wait(20 * time.Second)
+			// a restart is awaited when the new groups change what the template resolves to (whatever the instance
+			// was given before); a tree that never restarts must not cost more than a few long waits per run
+			if running && alive && cur != nil && resolveSource(sp.tmpl, curMs, curQ) != resolveSource(sp.tmpl, oldMs, curQ) {
+				rn := wait(vC42SPatience())
 				if rn == nil {
 					// the verdict on "not restarted" is Coq's: the last URL is no longer current
+					vC42SGaveUp.Add(1)
 					urls = nil
 				} else {
 					cur = rn
@@ -490,8 +505,12 @@ func vC42SRunSpec(sp vC42SSpec) vC42SResult {
 			}
 			if running && alive && cur != nil {
 				// the new configuration reaches the running instance asynchronously
-				for dl := time.Now().Add(10 * time.Second); cur.gen() != gen && time.Now().Before(dl); {
+				dl := time.Now().Add(vC42SPatience())
+				for cur.gen() != gen && time.Now().Before(dl) {
 					time.Sleep(200 * time.Microsecond)
+				}
+				if cur.gen() != gen {
+					vC42SGaveUp.Add(1)
 				}
 			}
 			term = cqApp("OReload", cqOpt(!st.confOnly, msT(st.ms)), "[]")
